@@ -279,8 +279,13 @@ class Ctx:
             shutil.copy(os.path.join(REPO, "Cargo.lock"), lock)
         e = dict(os.environ)
         e["CARGO_NET_OFFLINE"] = "true"
-        p = subprocess.run(["cargo", "build", "--offline", "-q", "-p", crate], cwd=HARNESS, env=e,
-                           stdout=subprocess.PIPE, stderr=subprocess.STDOUT, text=True)
+        cmd = ["cargo", "build", "--offline", "-q", "-p", crate]
+        p = subprocess.run(cmd, cwd=HARNESS, env=e, stdout=subprocess.PIPE, stderr=subprocess.STDOUT, text=True)
+        if p.returncode != 0 and "failed to select a version" in p.stdout:
+            # cargo prunes unused entries from the lock file; a crate that needs one again cannot be resolved
+            # offline (yanked versions): start over from the repository's own lock file
+            shutil.copy(os.path.join(REPO, "Cargo.lock"), lock)
+            p = subprocess.run(cmd, cwd=HARNESS, env=e, stdout=subprocess.PIPE, stderr=subprocess.STDOUT, text=True)
         if p.returncode != 0:
             self._dump("build.out", p.stdout)
             raise ToolError("harness build failed for %s:\n%s" % (crate, p.stdout[-3000:]))
